@@ -34,6 +34,8 @@ properties! {
     "C04" => c04,
     "C05" => c05,
     "C10" => c10,
+    "C11" => c11,
+    "C12" => c12,
 }
 
 /// Replay one stored case (a replay/regression JSON written by `Ctx::finish`).
